@@ -32,7 +32,7 @@ Fresh ==
   /\ gUnsub = "done" /\ gFwd = "done" /\ gBroker = "done" /\ nodeSub = FALSE
 
 OtherParts ==
-  /\ dial = "none" /\ ereg = FALSE /\ ectx = "none" /\ okCh = FALSE /\ cctx = FALSE
+  /\ dial = "none" /\ ereg = FALSE /\ ectx = "none" /\ okCh = FALSE /\ cctx = FALSE /\ uctx = FALSE
   /\ g1 = "none" /\ gmon = "none" /\ g2 = "none" /\ dDone = FALSE /\ qc = "none"
   /\ dOps = {} /\ aOps = {} /\ aDone = FALSE /\ acctx = FALSE /\ gaw = "none" /\ gam = "none"
   /\ lpc = "open" /\ lsrv = TRUE /\ tmutex = "free" /\ once = "free" /\ lc = "idle" /\ tr = "reading"
